@@ -172,6 +172,30 @@ def record_two_party(run: Run, rnd: random.Random, thorough: bool, evs: list[dic
             en = outcome(lambda: ellswift.decode_var(ellswift.encode_var(Bp)))
             evs.append({"op": "agree", "what": "ellswift decode(encode(P)) = P (x)", "a": nat(en[0]) if not isinstance(en, str) else en, "b": nat(Bp[0])})
             stats["ellswift"] += 1
+    # the SwiftEC map itself, recomputed: encodings made by the library, arbitrary 64-byte strings (every string decodes), the boundary
+    # field elements (0, p-1, p, 2^256-1: reduced first) and, on the other Koblitz curves with p = 3 mod 4, the pure-Python arm
+    from btclib.curves import CURVES
+
+    def cj(ec: Any) -> dict[str, str]:
+        return {"p": nat(ec.p), "a": nat(ec._a), "b": nat(ec._b), "gx": nat(ec.G[0]), "gy": nat(ec.G[1]), "n": nat(ec.n), "h": nat(ec.cofactor)}
+
+    for name in ("secp256k1", "secp192k1", "secp160k1"):
+        ec = CURVES[name]
+        size, p = ec.p_size, ec.p
+        top = (1 << (8 * size)) - 1
+        ells = [ellswift.create_var(rnd.randrange(1, ec.n), ec) for _ in range(3 if thorough else 2)]
+        ells += [rnd.randbytes(2 * size) for _ in range(6 if thorough else 3)]
+        ells += [u.to_bytes(size, "big") + t.to_bytes(size, "big") for u, t in ((0, 0), (0, 5), (7, 0), (p - 1, p - 1), (min(p, top), 3), (3, min(p + 1, top)), (top, top), (1, 1), (2, p - 2))]
+        for ell in ells:
+            out = outcome(lambda: ellswift.decode_var(ell, ec))
+            evs.append({"op": "ellswift", "c": cj(ec), "ell": ell.hex(), "out": pt(out) if not isinstance(out, str) else {"inf": 1}, "refusal": out if isinstance(out, str) else "", "curve": name})
+            stats["ellswift"] += 1
+        for party in (0, 1):
+            q = rnd.randrange(1, ec.n)
+            mine, theirs = ellswift.create_var(q, ec), rnd.randbytes(2 * size)
+            ella, ellb = (mine, theirs) if party == 0 else (theirs, mine)
+            sx = outcome(lambda: ellswift.xdh(ella, ellb, q, party, ec))
+            evs.append({"op": "xdh", "c": cj(ec), "ella": ella.hex(), "ellb": ellb.hex(), "q": nat(q), "party": party, "out": sx.hex() if isinstance(sx, bytes) else str(sx), "curve": name})
     return stats
 
 
@@ -425,7 +449,7 @@ def check(run: Run) -> None:
                 "(output key, internal key, BIP328-derived internal key, leaf key) x 2-3 signers x with/without script tree x sorted or not x v0/v2, each signer on its own copy; Borromean "
                 "signatures on the toy curve for every ring shape up to 3x3, signer position and key; on secp256k1 over 6-9 shapes with 6 alterations each; Pedersen commitments")
     run.assumptions = ["the cipher of BIE1 is the caller's (an involutive toy cipher here): the envelope, key derivation and MAC are btclib's",
-                       "ElligatorSwift is bound by agreement only (both parties derive one secret; decode inverts encode): its map is not re-specified",
+                       "ElligatorSwift: the map (EllSwift!XSwiftEC) is recomputed on secp256k1, secp192k1 and secp160k1 (p = 3 mod 4); the randomized inverse is bound by decode(encode(P)) = P",
                        "borromean and pedersen are specified generically (RingSig) and model-checked on the toy curve; the recorded signatures and commitments are secp256k1 / sha256"]
     cfgs = [("2 signers", MODEL_CFG.format(n=2, t=2 if thorough else 1, tv="1, 17", nv="3, 11" if thorough else "3"))]
     if thorough:
@@ -451,7 +475,7 @@ def check(run: Run) -> None:
     s3 = record_silent_payments(run, rnd, thorough, evs)
     s4 = record_psbt_musig(run, rnd, thorough, evs)
     s5 = record_rings(run, rnd, thorough, evs)
-    keep = ("rings", "e0", "v", "refused", "way", "agg", "internal", "root", "path", "spent_key", "accepted", "op", "pks", "tweaks", "pubnonces", "msg", "adaptor", "psigs", "verifies", "aggpk", "r", "s", "valid", "adapted_s", "adapted_valid", "extracted", "d", "q", "size", "info", "hf", "out",
+    keep = ("c", "ell", "ella", "ellb", "party", "rings", "e0", "v", "refused", "way", "agg", "internal", "root", "path", "spent_key", "accepted", "op", "pks", "tweaks", "pubnonces", "msg", "adaptor", "psigs", "verifies", "aggpk", "r", "s", "valid", "adapted_s", "adapted_valid", "extracted", "d", "q", "size", "info", "hf", "out",
             "iv", "ke", "km", "a", "b", "c", "g", "proof", "ok", "inputs", "outpoints", "rs", "outs", "bscan", "bspend", "labels", "found")
     compact = [{k: v for k, v in e.items() if k in keep} for e in evs]
     results, bad, diag = events.validate("C16Trace", compact, batch=400, timeout=6000)
